@@ -102,3 +102,23 @@ Section Contract.
     length ss = r_attempts p /\ enough_min p (length (collect_all 0 ss [])) = false.
   Proof. apply rloop_raise. Qed.
 End Contract.
+
+(* the executable clauses hold of the model's result whenever the evaluator returns only
+   evaluated individuals *)
+Theorem model_rep_holds_call p pop_len parts under w sizes :
+  ratio_ok p -> (forall x, In x (concat parts) -> evaluated x = true) ->
+  let r := fst (fst (reproduce p pop_len (fun i _ => nth i parts []) under w)) in
+  rep_holds_call (Build_rcall p pop_len parts sizes
+                    (match r with RetOk l => ORet l | RaiseAttempts => OAttemptsError end)) = true.
+Proof.
+  intros R Ev r. pose proof (reproduce_contract_g p pop_len (fun i _ => nth i parts []) under R w) as H.
+  fold r in H. unfold rep_holds_call. destruct r as [l|]; simpl; [|reflexivity].
+  destruct H as (ND & L & E & F).
+  assert (I : incl l (concat parts)).
+  { intros x Hx. destruct (F x Hx) as (i & s & Hi). apply in_concat. exists (nth i parts []). split; [|exact Hi].
+    destruct (Nat.lt_ge_cases i (length parts)) as [Hl|Hl]; [apply nth_In, Hl|].
+    rewrite nth_overflow in Hi by exact Hl. destruct Hi. }
+  apply nodup_uid_iff in ND. rewrite ND, E, (subset_b_of_incl _ _ I). apply Nat.leb_le in L. rewrite L.
+  assert (forallb evaluated l = true) as -> by (apply forallb_forall; intros x Hx; apply Ev, I, Hx).
+  reflexivity.
+Qed.
